@@ -406,6 +406,8 @@ func Explore(t *testing.T, sc *Scenario, oracle Oracle, sh vr.ShardInfo, dir str
 		}
 	}
 	p.Add(pre+"n_states", int64(len(seen)))
+	p.Add("porcupine_cross_checks", PorcupineChecks)
+	PorcupineChecks = 0
 	if os.Getenv("VERIF_CMC_DEBUG") != "" {
 		fmt.Fprintf(os.Stderr, "worker %d scenario %s: wall %.1fs idle %.1fs in %d sleeps, execs %d, states owned %d sent %d recv %d\n", me, sc.Name, time.Since(tStart).Seconds(), float64(idleNs)/1e9, idleSleeps, p.Counters["executions"], len(seen), sent, recv)
 	}
